@@ -105,4 +105,11 @@ def signedAngle (V1 V2 N : V3) : Int × Rat × Rat :=
   let S := V3.cross V1 V2
   ((if 0 ≤ V3.dot S N then 1 else -1), V3.norm2 S, V3.dot V1 V2)
 
+/-- `cotan(A,B,C) = cos/sin` of the angle at `B`: the pair `(BA · BC, |BA × BC|²)`; `cotan = first / sqrt second`.
+(The code normalises `BA`, `BC` first; the ratio does not depend on that, see `cotanPair_scale`.) -/
+def cotanPair (A B C : V3) : Rat × Rat :=
+  let BA := V3.sub A B
+  let BC := V3.sub C B
+  (V3.dot BA BC, V3.norm2 (V3.cross BA BC))
+
 end Mouette.Prim
